@@ -109,6 +109,13 @@ CHECKS = {
         "Compares rendered outputs (SQL text, repr of parsed trees, type strings, lineage leaves, error class+message). AST diff is excluded as the property says. Sampled configurations, not all orders.",
         "DESIGN.md §C15",
     ),
+    "C18": (
+        "property-based testing of operation histories (Hypothesis-generated add_table/lookup sequences x depth x dialect x normalize) with two oracles: lookup-free replay on a fresh MappingSchema and a tiny dict model; bounded-exhaustive short histories",
+        "After every lookup of a generated history the instance that has served earlier lookups must answer exactly like a new instance that received the same registrations and no lookup; for default-dialect lower-case histories an independent dict model predicts visibility, updates, suffix matching and ambiguity. "
+        "All histories of length 2 and 3 (thorough 3 and 4) over a reduced universe at depth 2 are enumerated.",
+        "The replay realises 'a schema freshly constructed from the final mapping' without re-normalising keys. The dict model covers column_names only.",
+        "DESIGN.md §C18",
+    ),
     "C20": (
         "property-based testing (Hypothesis source trees x generated edit scripts / independent trees x true-correspondence matchings) with an accounting oracle over the edit script",
         "Every non-Identifier node of source/target must be accounted exactly once (Remove|Keep|Update source side; Insert|Keep|Update target side), paired nodes share a class, no foreign nodes, delta_only == full minus Keep, "
